@@ -209,10 +209,14 @@ impl Spec {
 }
 
 pub fn g(n: usize, t: usize, p: usize, k: usize) -> Spec {
-    Spec::G(Scope { n, t, p, k, symmetry: false })
+    Spec::G(Scope { n, t, p, k, symmetry: false, only_cyclic: false })
+}
+/// Only the grammars of the scope that have a derivation cycle.
+pub fn gcyclic(n: usize, t: usize, p: usize, k: usize) -> Spec {
+    Spec::G(Scope { n, t, p, k, symmetry: true, only_cyclic: true })
 }
 pub fn gsym(n: usize, t: usize, p: usize, k: usize) -> Spec {
-    Spec::G(Scope { n, t, p, k, symmetry: true })
+    Spec::G(Scope { n, t, p, k, symmetry: true, only_cyclic: false })
 }
 
 pub fn all_seed_nbh(k_small: usize, k_large: usize, cap: usize) -> Vec<Spec> {
